@@ -134,7 +134,7 @@ PROPS = {
               "thorough": [["store-C09", "--scenarios", "40", "--ops", "3000"]]},
         trusted=STORE_TRUST,
         statement="chain grammar + free map = maximal free runs; growth ⇔ no run fits",
-        partial="proved (unbounded, every operation sequence): the file is a gap-free chain of well-formed segments, no id is active twice and the free map equals the maximal FREE runs of the file, canonical with exact coverage (C09.chain_and_free_map_invariant); a write replaces a block of FREE segments by the new span (+ padding or one FREE remainder) of the same size or appends when nothing fits (write_places_span, grows_iff_nothing_fits); markFree/getFreeRange specs. The same is evaluated on the implementation's bytes by an independent grammar walker after every operation. 'Steady-state churn is bounded' has no allocator-independent formulation and is monitored only",
+        partial="proved (unbounded, every operation sequence): the file is a gap-free chain of well-formed segments, no id is active twice and the free map equals the maximal FREE runs of the file, canonical with exact coverage (C09.chain_and_free_map_invariant); a write replaces a block of FREE segments by the new span (+ padding or one FREE remainder) of the same size or appends when nothing fits (write_places_span, grows_iff_nothing_fits); markFree/getFreeRange specs. The same is evaluated on the implementation's bytes by an independent grammar walker after every operation. Reuse of freed space (Lemmas/Reuse.lean): write_into_free_region_does_not_grow (any state), superseded_space_is_reused / removed_space_is_reused (after an overwrite or a removal, the next write of any record no longer than the released span does not grow the file), so rewriting a document with content of the same size alternates between two places and can grow the file again only when the record itself gets longer (sequence number crossing a 7-bit length boundary: four times in 2^32 writes). A closed-form bound on the file size for arbitrary mixed workloads is not stated (it depends on first-fit fragmentation); the growth oracle of the harness monitors it",
     ),
     "C08": dict(
         modules=["Syzgy.Props.C08"], ties=["Storage"],
